@@ -60,6 +60,43 @@ theorem no_edge_when_unknown (sb lb : Reg) (ds dl : Int) (s : RegState)
     isMemload (memOp (some sb) none 1 (some ds)) (loadIns (memOp (some lb) none 1 (some dl))) s = false := by
   simp [isMemload, loadIns, memOp, hs]
 
+/-- every tracked update writes exactly one entry: the register's own -/
+theorem updateOne_setReg (s : RegState) (reg : Txt) (change : Option Change) :
+    ∃ v, updateOne s reg change = setReg s reg v := by
+  unfold updateOne
+  repeat' split
+  all_goals exact ⟨_, rfl⟩
+
+/-- an unknown register stays unknown: no later reported change makes it known again -/
+theorem unknown_sticky (s : RegState) (r : Txt) (ch : List (Txt × Option Change))
+    (h : lookup s r = some none) : lookup (updateState s ch) r = some none := by
+  unfold updateState
+  induction ch generalizing s with
+  | nil => simpa using h
+  | cons e es ih =>
+    simp only [List.foldl_cons]
+    apply ih
+    by_cases hq : r = e.1
+    · subst hq
+      cases hc : e.2 with
+      | none => simp [updateOne, lookup_setReg]
+      | some c => simp [updateOne, h, lookup_setReg]
+    · obtain ⟨v, hv⟩ := updateOne_setReg s e.1 e.2
+      rw [hv, lookup_setReg]
+      simp [hq, h]
+
+/-- **after an access post-indexed by a register** (`ld1 {v0.2d}, [x1], x2`, `st1 {v3.4s}, [x4], x5`): the
+    post-indexed query reports `(base, None)` (Props/C03Roles `reg_changes_post_register`), the tracker records the
+    base as changed beyond reconstruction, and from then on — whatever known or unknown changes `later` follow, for
+    all displacements — no store→load dependency through that base is found. -/
+theorem no_edge_after_register_post_index (sb lb : Reg) (ds dl : Int) (s : RegState)
+    (later : List (Txt × Option Change)) :
+    isMemload (memOp (some sb) none 1 (some ds)) (loadIns (memOp (some lb) none 1 (some dl)))
+      (updateState (updateState s [(fullName lb, none)]) later) = false := by
+  apply no_edge_when_unknown
+  apply unknown_sticky
+  simp [updateState, updateOne, lookup_setReg]
+
 /-- one has a base register and the other has not: never the same location -/
 theorem no_edge_base_vs_nobase (lb : Reg) (ds dl : Int) (s : RegState) :
     isMemload (memOp none none 1 (some ds)) (loadIns (memOp (some lb) none 1 (some dl))) s = false := by
@@ -101,6 +138,16 @@ example : isMemload (memOp (some { pre := ofString "x", name := ofString "2" }) 
 example : isMemload (memOp (some { name := ofString "rbx" }) none 1 (some 8))
     (loadIns (memOp (some { name := ofString "rbx" }) none 1 (some 0)))
     (updateState [] [(ofString "rbx", some ⟨ofString "rbx", 8⟩)]) = true := by decide +kernel
+
+-- no_edge_after_register_post_index: `str d1, [x2, #8]` ; `ld1 {v5.2d}, [x2], x9` ; `add x2, x2, #8` ; `ldr d2, [x2]`
+example : isMemload (memOp (some { pre := ofString "x", name := ofString "2" }) none 1 (some 8))
+    (loadIns (memOp (some { pre := ofString "x", name := ofString "2" }) none 1 (some 0)))
+    (updateState (updateState [] [(ofString "x2", none)]) [(ofString "x2", some ⟨ofString "x2", 8⟩)]) = false := by
+  decide +kernel
+-- … while a post-index by a NUMBER keeps the base known: `ldr d5, [x2], #8` ; `ldr d2, [x2]` hits `str d1, [x2, #8]`
+example : isMemload (memOp (some { pre := ofString "x", name := ofString "2" }) none 1 (some 8))
+    (loadIns (memOp (some { pre := ofString "x", name := ofString "2" }) none 1 (some 0)))
+    (updateState [] [(ofString "x2", some ⟨ofString "x2", 8⟩)]) = true := by decide +kernel
 
 /-! ### semantic soundness of the tracker (concrete register valuations, `Lemmas/Tracking.lean`)
 
